@@ -306,31 +306,37 @@ func runRobust(r *ev.Run, hw *hangWatch, thorough bool) *robStats {
 			return robWitness{"robust", u.f.name, "hang", u.kind, hex.EncodeToString(cur), "does not return"}
 		}
 		defer hw.clear(w)
+		// the watchdog looks for ONE Decode call that does not return: new id per call
+		one := func(kind string) {
+			hw.seq[w]++
+			hw.w.EnterFast(w, hw.seq[w])
+			robustOne(r, u.f, cur, kind, desc, &bufs[w], st)
+		}
 		switch u.kind {
 		case "short":
 			if u.pos < 0 {
 				cur = []byte{}
-				robustOne(r, u.f, cur, "short-string", desc, &bufs[w], st)
+				one("short-string")
 				return
 			}
 			cur = []byte{byte(u.pos)}
-			robustOne(r, u.f, cur, "short-string", desc, &bufs[w], st)
+			one("short-string")
 			cur = []byte{byte(u.pos), 0}
 			for b := 0; b < 256; b++ {
 				cur[1] = byte(b)
-				robustOne(r, u.f, cur, "short-string", desc, &bufs[w], st)
+				one("short-string")
 			}
 		case "truncate":
 			for k := 0; k < len(s.enc); k++ {
 				cur = s.enc[:k]
 				what = fmt.Sprintf("truncated to %d bytes", k)
-				robustOne(r, u.f, cur, "truncate", desc, &bufs[w], st)
+				one("truncate")
 			}
 		case "delete":
 			for k := 0; k < len(s.enc); k++ {
 				cur = append(append(cur[:0], s.enc[:k]...), s.enc[k+1:]...)
 				what = fmt.Sprintf("with byte %d deleted", k)
-				robustOne(r, u.f, cur, "delete-1-byte", desc, &bufs[w], st)
+				one("delete-1-byte")
 			}
 		case "replace":
 			cur = append([]byte{}, s.enc...)
@@ -341,7 +347,7 @@ func runRobust(r *ev.Run, hw *hangWatch, thorough bool) *robStats {
 					continue
 				}
 				cur[u.pos] = byte(v)
-				robustOne(r, u.f, cur, kind, desc, &bufs[w], st)
+				one(kind)
 			}
 		case "insert":
 			cur = make([]byte, len(s.enc)+1)
@@ -350,7 +356,7 @@ func runRobust(r *ev.Run, hw *hangWatch, thorough bool) *robStats {
 			what = fmt.Sprintf("with one byte inserted before offset %d", u.pos)
 			for v := 0; v < 256; v++ {
 				cur[u.pos] = byte(v)
-				robustOne(r, u.f, cur, "insert-1-byte", desc, &bufs[w], st)
+				one("insert-1-byte")
 			}
 		case "replace2":
 			// every value pair at two adjacent positions (both changed)
@@ -367,7 +373,7 @@ func runRobust(r *ev.Run, hw *hangWatch, thorough bool) *robStats {
 						continue
 					}
 					cur[u.pos] = byte(v)
-					robustOne(r, u.f, cur, kind, desc, &bufs[w], st)
+					one(kind)
 				}
 			}
 		case "pair":
@@ -386,7 +392,7 @@ func runRobust(r *ev.Run, hw *hangWatch, thorough bool) *robStats {
 							continue
 						}
 						cur[q] = v2
-						robustOne(r, u.f, cur, kind, desc, &bufs[w], st)
+						one(kind)
 					}
 				}
 				cur[q] = s.enc[q]
